@@ -146,6 +146,38 @@ let c_case = function
         c_st1 = c_list c_state st1; c_warn = c_str warn }
   | _ -> fail_sx "case"
 
+let c_optdef = function
+  | C ("mkOptDef", [kind; name; aliases; def; mn; mx; req; reqmsg; env; valid; validq; sugg; sfn; setc; desc; argname; defstr]) ->
+      { od_kind = c_kind kind; od_name = c_str name; od_aliases = c_list c_str aliases; od_default = c_value def;
+        od_min = c_nat mn; od_max = c_nat mx; od_required = c_bool req; od_reqmsg = c_str reqmsg; od_env = c_str env;
+        od_valid = c_list c_str valid; od_validq = c_str validq; od_suggested = c_list c_str sugg;
+        od_sfn = c_opt c_nat sfn; od_setcalled = c_opt c_bool setc; od_desc = c_str desc; od_argname = c_str argname;
+        od_defstr = c_str defstr }
+  | _ -> fail_sx "optdef"
+
+let c_path = c_list c_str
+
+let c_bop = function
+  | C ("BOpt", [p; o]) -> BOpt (c_path p, c_optdef o)
+  | C ("BNewCmd", [p; n; d]) -> BNewCmd (c_path p, c_str n, c_str d)
+  | C ("BUnset", [p]) -> BUnset (c_path p)
+  | C ("BUMode", [p; m]) -> BUMode (c_path p, c_umode m)
+  | C ("BReqOrder", [p]) -> BReqOrder (c_path p)
+  | C ("BArgCompl", [p; l]) -> BArgCompl (c_path p, c_list c_str l)
+  | C ("BArgFns", [p; l]) -> BArgFns (c_path p, c_list c_nat l)
+  | C ("BSynArg", [p; a; d]) -> BSynArg (c_path p, c_str a, c_str d)
+  | C ("BSetFn", [p; i]) -> BSetFn (c_path p, c_nat i)
+  | C ("BHelp", [n; l]) -> BHelp (c_str n, c_list c_str l)
+  | _ -> fail_sx "bop"
+
+let c_bcase = function
+  | C ("mkBCase", [name; desc; ops; env; ftab; panics; specs; root; store]) ->
+      { bc_name = c_str name; bc_desc = c_str desc; bc_ops = c_list c_bop ops;
+        bc_env = c_list (c_pair c_str c_str) env; bc_ftab = c_list (c_pair c_str (c_opt c_n)) ftab;
+        bc_panics = c_bool panics; bc_specs = c_list c_spec specs; bc_root = c_node root;
+        bc_store = c_list c_state store }
+  | _ -> fail_sx "bcase"
+
 let c_dcase = function
   | C ("mkDCase", [base; ran; err; writer; help]) ->
       { d_base = c_case base;
@@ -221,6 +253,36 @@ let dmask_of_string (s : string) : dmask =
   let g i = String.length s > i && s.[i] = '1' in
   { dm_fn = g 0; dm_args = g 1; dm_view = g 2; dm_err = g 3; dm_writer = g 4; dm_help = g 5 }
 
+let rec show_node (Node (i, opts, cmds)) : string =
+  Printf.sprintf "(%s um=%s ro=%b help=%s fn=%s opts=%s cmds=%s)" (show_str i.ni_name)
+    (match i.ni_umode with Fail -> "Fail" | Warn -> "Warn" | Pass -> "Pass") i.ni_reqorder (show_str i.ni_helpname)
+    (match i.ni_fn with FnNone -> "none" | FnHelp -> "help" | FnUser n -> string_of_int (int_of_nat n))
+    (show_list (fun (k, o) -> show_str k ^ ":" ^ string_of_int (int_of_nat o)) opts)
+    (show_list (fun (k, c) -> show_str k ^ "=" ^ show_node c) cmds)
+
+let show_spec s = Printf.sprintf "%s[%d,%d]req=%b/%s env=%s def=%s arg=%s aliases=%s valid=%s/%s sugg=%s booldef=%b desc=%s" (show_str s.os_name) (int_of_nat s.os_min) (int_of_nat s.os_max) s.os_required (show_str s.os_reqmsg) (show_str s.os_env) (show_str s.os_defstr) (show_str s.os_argname) (show_list show_str s.os_aliases) (show_list show_str s.os_valid) (show_str s.os_validq) (show_list show_str s.os_suggested) s.os_booldef (show_str s.os_desc)
+
+let show_bdiff (c : bcase) : string =
+  match run_bcase c with
+  | None -> "model rejects the definition, the real API accepted it"
+  | Some ((r, sp), st) ->
+      if c.bc_panics then "model accepts the definition, the real API panicked" else
+      let ((r', sp'), st') = canon c.bc_root c.bc_specs c.bc_store in
+      let b = Buffer.create 256 in
+      if show_node r <> show_node r' then Buffer.add_string b (Printf.sprintf "TREE model=%s impl=%s; " (show_node r) (show_node r'));
+      List.iteri (fun i s -> let s' = try List.nth sp' i with _ -> s in if show_spec s <> show_spec s' then Buffer.add_string b (Printf.sprintf "SPEC %d model=%s impl=%s; " i (show_spec s) (show_spec s'))) sp;
+      List.iteri (fun i s -> let s' = try List.nth st' i with _ -> s in if show_state s <> show_state s' then Buffer.add_string b (Printf.sprintf "STATE %d model=%s impl=%s; " i (show_state s) (show_state s'))) st;
+      if List.length sp <> List.length sp' then Buffer.add_string b "number of options differs; ";
+      Buffer.contents b
+
+let show_bview (c : bcase) : string =
+  match run_bcase c with
+  | None -> "model{definition rejected (panic)}"
+  | Some ((r, sp), st) ->
+      Printf.sprintf "model{tree=%s specs=%s store=%s}" (show_node r)
+        (show_list (fun s -> Printf.sprintf "%s[%d,%d]req=%b env=%s def=%s aliases=%s" (show_str s.os_name) (int_of_nat s.os_min) (int_of_nat s.os_max) s.os_required (show_str s.os_env) (show_str s.os_defstr) (show_list show_str s.os_aliases)) sp)
+        (show_list show_state st)
+
 let mask_of_string (s : string) : mask =
   (* seven characters: e(rror presence/class/kind) p(ayload = format arguments) m(essage text)
      r(emaining) v(alues) c(alled) w(riter), '1' = compare *)
@@ -241,6 +303,10 @@ let () =
               let c = c_case sx in
               if check_case mask c then ()
               else begin incr bad; Printf.printf "MISMATCH %d %s\n" !i (show_view c) end
+          | C ("mkBCase", _) as sx ->
+              let c = c_bcase sx in
+              if check_bcase c then ()
+              else begin incr bad; Printf.printf "MISMATCH %d %s\n" !i (show_bdiff c) end
           | C ("mkDCase", _) as sx ->
               let c = c_dcase sx in
               if check_dcase mask dmask c then ()
